@@ -126,6 +126,17 @@ def r_dstr(P, chk):
         b = _dstring_param(f)
         if b is None or f.name == "ensureStringBufferCanHold":
             continue
+        # (P0) module convention, unanimous on the pinned tree: every d_string.c function with a `size_t len` / `bytes`
+        #      parameter accepts -1 ("to the end" / "use strlen") and therefore compares it with -1
+        for p in f.params:
+            if p[0] in ("len", "bytes") and ("size_t" in p[1] or "unsigned" in p[1]):
+                tests = [x for x in f.walk() if x["k"] == "BinaryOperator" and x["op"] in ("==", "!=")
+                         and key(x["c"][0]) == p[0] and const_value(x["c"][1]) in (-1, 2 ** 64 - 1)]
+                chk.obligation(rid, "%s: `%s` is compared with -1 (every length parameter of d_string.c has the 'to the end' form)" % (
+                    f.name, p[0]), bool(tests))
+                if not tests:
+                    chk.violation(rid, "dstr:minus1:%s" % f.name, f.where(), "%s no longer tests its length parameter `%s` for -1; "
+                                  "with the documented 'to the end' value the position arithmetic wraps" % (f.name, p[0]))
         bw = _buffer_writes(f, b)
         ls = _len_stores(f, b)
         if not bw and not ls:
@@ -396,5 +407,5 @@ def r_editloop(P, chk):
                     chk.violation(rid, "dstr:editloop:%s:%s" % (f.name, t["n"]), f.where(x),
                                   "%s: the loop changes the length of %s by %s per iteration but moves `%s` by %s" % (
                                       f.name, b, net, t["n"], _norm(lf) if lf is not None else key(x["c"][1])))
-    chk.floor(rid, n, 2, "carried positions in editing loops")
+    chk.floor(rid, n, 1, "carried positions in editing loops")
     chk.analysed[rid] = {"carried_updates": n}
